@@ -201,6 +201,46 @@ def run(prog: Program) -> Results:
                         res.add("R-C18-6", (f.key, "closing delimiter uses inline-dependent indent"), f.loc(n),
                                 f"{f.key}: the closing `{sg.value[:1]}` on its own line is prefixed by `{norm(prev)}`, which is empty when "
                                 f"the node is rendered inline (binding value, argument): the delimiter lands at column 0")
+    # ---------------------------------------------------------------- R-C18-7
+    from sa.order import Order
+    r7 = res.rule("R-C18-7", "a node's own leading/trailing trivia (`self.before`, `self.after`, and lists built only from them) are "
+                  "rendered at the node's own indent: the `indent` argument of format_trivia / apply_trailing_trivia is the "
+                  "rebuild's `indent` parameter itself, not an inner (item) indent", floor=12)
+    for f in prog.all_functions():
+        top = f
+        while top.parent is not None:
+            top = top.parent
+        if not (top.cls and top.name in ("rebuild", "add_trivia") and "indent" in top.params()):
+            continue
+        if f is not top and "indent" in f.params():
+            continue  # a closure with its own `indent`: the value is whatever its callers pass
+        reassigned = any(isinstance(n, ast.Name) and n.id == "indent" and isinstance(n.ctx, ast.Store) for n in ast.walk(top.node))
+        o = Order(f)
+        for c in walk_no_nested(f.node):
+            if not isinstance(c, ast.Call):
+                continue
+            nm = callee(c)
+            if nm == "format_trivia" and c.args:
+                slot = c.args[0]
+            elif nm == "apply_trailing_trivia" and len(c.args) >= 2:
+                slot = c.args[1]
+            else:
+                continue
+            labels = o.seq(slot)
+            flat = [x for lab in labels for x in ([lab] if lab[0] != "bag" else lab[1])]
+            if not flat or not all(p == ("self",) for p, k in flat):
+                continue
+            r7.instances += 1
+            arg = next((k.value for k in c.keywords if k.arg == "indent"), None)
+            if arg is None and nm == "format_trivia" and len(c.args) > 1:
+                arg = c.args[1]
+            ok = isinstance(arg, ast.Name) and arg.id == "indent" and not reassigned
+            r7.ob(ok, {"site": f.key, "call": norm(c)[:70]})
+            if not ok:
+                res.add("R-C18-7", (f.key, "own trivia at a foreign indent", nm, "/".join(sorted({k for p, k in flat}))), f.loc(c),
+                        f"{f.key}: `{norm(c)[:80]}` renders the node's own {sorted({k for p, k in flat})} trivia with indent "
+                        f"`{norm(arg) if arg is not None else 'default 0'}` instead of the node's `indent`: own-line comments that belong to "
+                        f"the enclosing structure are shifted to another column")
     res.assumptions = ["`;`/`:` attachment and exactly-one-space between tokens are value-level facts not decided here"]
     return res
 
